@@ -258,14 +258,13 @@ func oracleC05(h *History, ci int, c *CallObs, res *hx.Result, st5 *c05state) {
 		res.OracleChecks++
 		switch c.Kind {
 		case 3:
+			// the class is computed from the input (the option values), not from the panic message
 			class := "panic"
-			if bytes.Contains([]byte(c.Err), []byte("slice bounds out of range")) {
-				switch {
-				case o.MaxTemplateChars < 3:
-					class = "panic:truncate:max-template-chars-below-3"
-				case o.MaxResultChars < 0:
-					class = "panic:truncate:negative-max-result-chars"
-				}
+			switch {
+			case o.MaxTemplateChars < 3:
+				class = "panic:truncate:max-template-chars-below-3"
+			case o.MaxResultChars < 0:
+				class = "panic:truncate:negative-max-result-chars"
 			}
 			fail(class, "engine call panicked: "+c.Err)
 			return
@@ -290,24 +289,22 @@ func oracleC05(h *History, ci int, c *CallObs, res *hx.Result, st5 *c05state) {
 		if newSteps > limit {
 			fail("step-limit-exceeded", fmt.Sprintf("sprint visited %d steps, limit %d", newSteps, o.MaxSteps))
 		}
-		hitLimit := false
+		// "hitting the limit ends the session as failed with a failure event": whether the limit was hit is not
+		// observable from outside except through the failure event's text, and texts are not part of the
+		// property: nothing is decided from wording.  Only when a failure event carries exactly the step-limit
+		// phrase of the pinned source does the oracle know the limit was hit, and then requires the session to be
+		// failed (a reworded text merely switches this one check off; the step bound above, the Go-error / panic /
+		// hang checks and the Coq theorems about FStepLimit do not depend on it).
 		for _, ev := range c.Sprint.Events() {
-			if txt, ok := failureText(ev); ok && failCode(txt) == 0 {
-				hitLimit = true
+			if txt, ok := failureText(ev); ok && failCode(txt) == 0 && s.Status() != flows.SessionStatusFailed {
+				fail("step-limit-not-failed", "the step limit was hit but the session is "+string(s.Status()))
 			}
 		}
-		if hitLimit && s.Status() != flows.SessionStatusFailed {
-			fail("step-limit-not-failed", "the step limit was hit but the session is "+string(s.Status()))
-		}
-		// resumes
+		// resumes: a resume "went through" when the call returned a session that is not failed afterwards (a
+		// session failed for having reached the limit - or for any other reason - was not resumed in the sense of
+		// the sentence, and cannot be resumed again).  Decided from the status only.
 		if ci > 0 {
-			resumedNow := true
-			for _, ev := range c.Sprint.Events() {
-				if txt, ok := failureText(ev); ok && failCode(txt) == 4 {
-					resumedNow = false
-				}
-			}
-			if resumedNow {
+			if s.Status() != flows.SessionStatusFailed {
 				st5.resumed++
 			}
 			lim := o.MaxResumes
@@ -315,7 +312,7 @@ func oracleC05(h *History, ci int, c *CallObs, res *hx.Result, st5 *c05state) {
 				lim = 0
 			}
 			if st5.resumed > lim {
-				fail("resume-limit-exceeded", fmt.Sprintf("session resumed %d times, limit %d", st5.resumed, o.MaxResumes))
+				fail("resume-limit-exceeded", fmt.Sprintf("session resumed %d times without failing, limit %d", st5.resumed, o.MaxResumes))
 			}
 		}
 		// lengths
@@ -462,22 +459,18 @@ func oracleC10(h *History, ci int, c *CallObs, res *hx.Result) {
 		case 1:
 			// rejected: the session must be exactly as it was, no events
 			if !bytes.Equal(c.Before, c.After) {
-				fail(fmt.Sprintf("rejected-%d-session-changed", c.Code), "session JSON differs after a rejected resume")
+				fail(fmt.Sprintf("rejected-%d-session-changed", ex.reject), "session JSON differs after a rejected resume")
 			}
 			if c.Sprint != nil && (len(c.Sprint.Events()) > 0 || len(c.Sprint.Segments()) > 0 || len(c.Sprint.Modifiers()) > 0) {
-				fail(fmt.Sprintf("rejected-%d-produced-events", c.Code), "a rejected resume produced events")
+				fail(fmt.Sprintf("rejected-%d-produced-events", ex.reject), "a rejected resume produced events")
 			}
-			if c.Code != 101 && c.Code != 102 && c.Code != 103 {
-				fail("unknown-error-code", fmt.Sprintf("engine error code %d", c.Code))
-			}
-			// ... and it must be one of the three situations
+			// ... and it must be one of the three situations (the error's code and wording are not compared: the
+			// sentence names situations, not codes)
 			switch {
 			case ex.reject == 0 && ex.impossible == "":
-				fail(fmt.Sprintf("acceptable-resume-rejected-%d", c.Code), "the session was waiting on a wait that accepts this resume, yet it was rejected: "+c.Err)
+				fail("acceptable-resume-rejected", "the session was waiting on a wait that accepts this resume, yet it was rejected: "+c.Err)
 			case ex.reject == 0 && ex.impossible != "":
 				fail("impossible-resume-rejected:"+strings.ReplaceAll(ex.impossible, " ", "-"), "resumption was impossible ("+ex.impossible+") but the resume was rejected instead of failing the session: "+c.Err)
-			case ex.reject != c.Code:
-				fail(fmt.Sprintf("wrong-error-code-%d-for-%d", c.Code, ex.reject), "rejected with another code than the situation calls for: "+c.Err)
 			}
 		case 0:
 			if ex.reject != 0 && ex.impossible == "" {
